@@ -251,6 +251,8 @@ Proof.
   - rewrite arn_create, !pfresh_create, H0. f_equal. f_equal. unfold pfresh_cls, arn_cls. rewrite forallb_map.
     induction H as [|[[x c] b] r Hb _ IH]; [reflexivity|]. simpl in *. now rewrite Hb, IH.
 Qed.
+Lemma in_rev_append : forall {X} (a b : list X) x, In x (rev_append a b) <-> In x a \/ In x b.
+Proof. intros. rewrite rev_append_rev, in_app_iff, <- in_rev. tauto. Qed.
 Lemma memN_in : forall x l, memN x l = true <-> In x l.
 Proof.
   intros. unfold memN. rewrite existsb_exists. split.
@@ -259,3 +261,98 @@ Proof.
 Qed.
 Lemma memN_false : forall x l, memN x l = false <-> ~ In x l.
 Proof. intros. rewrite <- memN_in. destruct (memN x l); split; intros H; auto; try discriminate. exfalso. apply H. reflexivity. Qed.
+
+(* ---------- binders are not renamed ---------- *)
+Lemma cbinders_rn_all : forall f,
+  (forall t, cbinders_term (rn_term f t) = cbinders_term t) /\
+  (forall c, cids (clause_ctx (rn_clause f c)) ++ cbinders (clause_body (rn_clause f c))
+             = cids (clause_ctx c) ++ cbinders (clause_body c)) /\
+  (forall s, cbinders (rn_stmt f s) = cbinders s).
+Proof.
+  intros f. apply fs_mutind; intros; try reflexivity.
+  - simpl. now rewrite H.
+  - rewrite rn_term_xcase, !cbinders_term_xcase. unfold cbinders_clauses, rn_clauses.
+    induction H as [|y r Hy _ IH]; [reflexivity|]. simpl. now rewrite Hy, IH.
+  - simpl. now rewrite H.
+  - simpl. now rewrite H, H0.
+  - simpl. now rewrite H, H0.
+  - simpl. now rewrite H.
+Qed.
+Lemma cbinders_rn : forall f s, cbinders (rn_stmt f s) = cbinders s.
+Proof. intros. apply cbinders_rn_all. Qed.
+
+(* ---------- unique binders: only membership in the scope matters ---------- *)
+Lemma fresh_ids_ext : forall xs S S', (forall i, mem_id i S = mem_id i S') -> fresh_ids S xs = fresh_ids S' xs.
+Proof.
+  induction xs as [|x r IH]; intros S S' H; [reflexivity|]. simpl. rewrite (H x). f_equal.
+  apply IH. intros i. unfold mem_id in *. simpl. now rewrite H.
+Qed.
+Definition ub_clause (scope : list N) (cl : fsclause) : bool :=
+  match cl with FsClause _ _ ctx body => fresh_ids scope (cids ctx) && ub_stmt (rev_append (cids ctx) scope) body end.
+Definition ub_clauses (scope : list N) (cls : list fsclause) : bool := forallb (ub_clause scope) cls.
+Lemma ub_term_xcase : forall S c cls t, ub_term S (FsXCase c cls t) = ub_clauses S cls.
+Proof.
+  intros. simpl. unfold ub_clauses. induction cls as [|[c' x ctx b] r IH]; [reflexivity|]. simpl. now rewrite IH.
+Qed.
+Lemma mem_id_rev_append : forall i a S S', (forall j, mem_id j S = mem_id j S') ->
+  mem_id i (rev_append a S) = mem_id i (rev_append a S').
+Proof.
+  intros i a. induction a as [|x r IH]; intros S S' H; simpl; [apply H|].
+  apply IH. intros j. unfold mem_id in *. simpl. now rewrite H.
+Qed.
+Lemma ub_ext_all :
+  (forall t S S', (forall i, mem_id i S = mem_id i S') -> ub_term S t = ub_term S' t) /\
+  (forall c S S', (forall i, mem_id i S = mem_id i S') -> ub_clause S c = ub_clause S' c) /\
+  (forall s S S', (forall i, mem_id i S = mem_id i S') -> ub_stmt S s = ub_stmt S' s).
+Proof.
+  apply fs_mutind; intros; try reflexivity.
+  - simpl. rewrite (H0 (cid_id v)). f_equal. apply H. intros i. unfold mem_id in *. simpl. now rewrite H0.
+  - rewrite !ub_term_xcase. unfold ub_clauses. induction H as [|y r Hy _ IH]; [reflexivity|]. simpl.
+    rewrite (Hy S S' H0), IH. reflexivity.
+  - simpl. rewrite (fresh_ids_ext _ S S' H0). f_equal. apply H. intros i. now apply mem_id_rev_append.
+  - simpl. now rewrite (H S S' H1), (H0 S S' H1).
+  - simpl. now rewrite (H S S' H1), (H0 S S' H1).
+  - simpl. now apply H.
+Qed.
+Lemma ub_stmt_ext : forall s S S', (forall i, mem_id i S = mem_id i S') -> ub_stmt S s = ub_stmt S' s.
+Proof. apply ub_ext_all. Qed.
+Lemma mem_id_in : forall x l, mem_id x l = true <-> In x l.
+Proof. exact memN_in. Qed.
+Lemma mem_id_ext_of_in : forall S S', (forall i, In i S <-> In i S') -> forall i, mem_id i S = mem_id i S'.
+Proof.
+  intros S S' H i. destruct (mem_id i S) eqn:E1, (mem_id i S') eqn:E2; try reflexivity.
+  - apply mem_id_in in E1. apply H in E1. apply mem_id_in in E1. congruence.
+  - apply mem_id_in in E2. apply H in E2. apply mem_id_in in E2. congruence.
+Qed.
+
+(* binders of a statement are outside the scope *)
+Lemma fresh_ids_spec : forall xs S, fresh_ids S xs = true -> NoDup xs /\ (forall x, In x xs -> ~ In x S).
+Proof.
+  induction xs as [|x r IH]; intros S H; simpl in H.
+  - split; [constructor | intros x []].
+  - apply andb_prop in H as [H1 H2]. apply negb_true_iff in H1.
+    assert (Hx : ~ In x S) by (intros Hin; apply mem_id_in in Hin; congruence).
+    destruct (IH _ H2) as [Hnd Hni]. split.
+    + constructor; [|exact Hnd]. intros Hin. apply (Hni x Hin). now left.
+    + intros y [<-|Hy]; [exact Hx|]. intros HA. apply (Hni y Hy). now right.
+Qed.
+Lemma ub_notin_all :
+  (forall t S, ub_term S t = true -> forall i, In i (cbinders_term t) -> ~ In i S) /\ (forall c S, ub_clause S c = true -> forall i, In i (cids (clause_ctx c) ++ cbinders (clause_body c)) -> ~ In i S) /\ (forall s S, ub_stmt S s = true -> forall i, In i (cbinders s) -> ~ In i S).
+Proof.
+  apply fs_mutind; intros; try (simpl in *; contradiction).
+  - simpl in H0, H1. apply andb_prop in H0 as [Ha Hb]. apply negb_true_iff in Ha.
+    destruct H1 as [<-|H1].
+    + intros Hin. apply mem_id_in in Hin. congruence.
+    + intros Hin. apply (H _ Hb i H1). now right.
+  - rewrite ub_term_xcase in H0. rewrite cbinders_term_xcase in H1. unfold cbinders_clauses in H1.
+    apply in_flat_map in H1 as (cl & Hcl & Hi). unfold ub_clauses in H0. rewrite forallb_forall in H0.
+    rewrite Forall_forall in H. eapply H; eauto.
+  - simpl in H0, H1. apply andb_prop in H0 as [Ha Hb]. apply in_app_or in H1 as [H1|H1].
+    + apply fresh_ids_spec in Ha as [_ Ha]. now apply Ha.
+    + intros Hin. apply (H _ Hb i H1). apply in_rev_append. now right.
+  - simpl in H1, H2. apply andb_prop in H1 as [Ha Hb]. apply in_app_or in H2 as [H2|H2]; eauto.
+  - simpl in H1, H2. apply andb_prop in H1 as [Ha Hb]. apply in_app_or in H2 as [H2|H2]; eauto.
+  - simpl in *. eauto.
+Qed.
+Lemma ub_notin : forall s S, ub_stmt S s = true -> forall i, In i (cbinders s) -> ~ In i S.
+Proof. apply ub_notin_all. Qed.
